@@ -7,7 +7,7 @@ import subprocess
 
 import common
 
-PROG = "inplace,grow,alter,inplace,finalize"
+PROG = "inplace,grow,alter,alter,inplace,finalize"      # the second alter session fails (reference without definition)
 
 
 def run_schedule(k, mode, wait_ms=60):
@@ -133,8 +133,10 @@ def explore(run, focus, thorough):
                            dict(payload, model_answer=a), found=False)
         if mode == "abort":
             continue
-        if focus == "C09" and [v for v in versions] != ["1", "2", "3", "4"][:len(versions)]:
-            report("commit-not-visible", tuple(versions), f"schedule park={k} {mode}: after the operations returned, readers saw versions {versions} instead of 1, 2, 3, 4", payload)
+        n_ops = len(PROG.split(",")) - 1
+        want_versions = [str(i + 1) for i in range(n_ops)]
+        if focus == "C09" and [v for v in versions] != want_versions[:len(versions)]:
+            report("commit-not-visible", tuple(versions), f"schedule park={k} {mode}: after the operations returned, readers saw versions {versions} instead of {', '.join(want_versions)}", payload)
         if focus == "C09" and not any(l == "end" for l in lines) and not any(l.startswith("deadlock") for l in lines):
             report("deadlock", last_hook, f"schedule park={k} {mode}: the run produced no `end`", payload)
     return stats
